@@ -11,7 +11,7 @@ git checkout -q -- . ; git clean -qfd -e out
 DEMO=$(ls $MD/*_test.go | head -1)
 echo "== demo on unmodified tree"
 cp $DEMO $WT/$PKG/zz_demo_test.go
-( cd $WT/$PKG && go test -count=1 -run 'Demo|demo|C[0-9][0-9]' . 2>&1 | tail -3 )
+( cd $WT/$PKG && go test -count=1 -run . . 2>&1 | tail -3 )
 rm -f $WT/$PKG/zz_demo_test.go
 echo "== apply patch, build, existing tests"
 git apply $MD/patch.diff || { echo PATCH-DOES-NOT-APPLY; exit 8; }
@@ -19,7 +19,7 @@ go build ./... 2>&1 | tail -3
 go test -vet=off -count=1 ./... 2>&1 | grep -v "no test files" | grep -v "^ok" | head -5
 echo "== demo with patch"
 cp $DEMO $WT/$PKG/zz_demo_test.go
-( cd $WT/$PKG && go test -count=1 -run 'Demo|demo|C[0-9][0-9]' . 2>&1 | tail -4 )
+( cd $WT/$PKG && go test -count=1 -run . . 2>&1 | tail -4 )
 rm -f $WT/$PKG/zz_demo_test.go
 git checkout -q -- . ; git clean -qfd -e out
 echo "== my check against the patched /repo"
